@@ -162,9 +162,17 @@ def run(chk, prog):
             v = ini.get(fld)
             ok = v is not None and sp.simplify(v.subs(sp.Symbol(par, real=True), 0)) == 0 and v.has(sp.Symbol(par, real=True))
             chk.check(ok, "R2", site, "%s is proportional to %s (%s)" % (fld, par, v), "DynamicRFKickMap:%s:%s" % (fld, v))
-        nm = [i for i in c["inits"] if i.get("target") == "_next_modulation"]
-        A.require(len(nm) == 1, "DynamicRFKickMap: _next_modulation initialiser missing")
-        call = [x for x in A.walk(nm[0]["expr"]) if x.get("callee") == "vfps::DynamicRFKickMap::__calcModulation"]
+        nm = [i["expr"] for i in c["inits"] if i.get("target") == "_next_modulation" and isinstance(i.get("expr"), dict) and
+              any(x.get("callee") == "vfps::DynamicRFKickMap::__calcModulation" for x in A.walk(i["expr"]))]
+        # ... or filled by assignment in the constructor body
+        for y_, lhs_, op_, rhs_ in (A.assignments_in(c["body"]) if c.get("body") else []):
+            if A.this_field(lhs_) == "_next_modulation" and op_ == "=":
+                nm.append(rhs_)
+        for y_ in (A.walk(c["body"]) if c.get("body") else []):
+            if y_.get("k") == "CXXOperatorCallExpr" and y_.get("op") == "=" and len(y_.get("args", [])) == 2 and A.this_field(y_["args"][0]) == "_next_modulation":
+                nm.append(y_["args"][1])
+        A.require(len(nm) == 1, "DynamicRFKickMap: _next_modulation is not filled exactly once in the constructor (%d)" % len(nm))
+        call = [x for x in A.walk(nm[0]) if x.get("callee") == "vfps::DynamicRFKickMap::__calcModulation"]
         ok = len(call) == 1 and (A.declref(call[0]["args"][0]) or {}).get("name") == "steps"
         chk.check(ok, "R2", site, "_next_modulation = __calcModulation(steps)", "DynamicRFKickMap:queue-init")
         # order of members: the queue is computed after the amplitudes it uses
@@ -233,7 +241,7 @@ def run(chk, prog):
     ev = {
         "calcKick": Fl.is_call_to("vfps::RFKickMap::_calcKick") if dk["qname"] == "vfps::DynamicRFKickMap::apply" else Fl.is_call_to(dk["qname"]),
         "KickMap::apply": Fl.is_call_to("vfps::KickMap::apply"),
-        "emplace_back(past)": on_field("::emplace_back", "_past_modulation"),
+        "emplace_back(past)": (lambda n, p1=on_field("::emplace_back", "_past_modulation"), p2=on_field("::push_back", "_past_modulation"): p1(n) or p2(n)),
         "pop(next)": on_field("::pop", "_next_modulation"),
     }
     for nm, pr in ev.items():
@@ -249,6 +257,14 @@ def run(chk, prog):
     if eb:
         arg = eb[0][2]["args"][0] if eb[0][2].get("args") else None
         t = A.show(arg).replace(" ", "") if arg else ""
+        ad_ = A.declref(arg) if arg is not None else None
+        if ad_ is not None and "_next_modulation.front()" not in t:
+            # a local that holds a copy of / reference to the front entry
+            for st_ in A.walk(ap["body"]):
+                if st_.get("k") == "DeclStmt":
+                    for d_ in st_["decls"]:
+                        if d_.get("decl") == ad_.get("decl") and "init" in d_:
+                            t = A.show(d_["init"]).replace(" ", "")
         chk.check("_next_modulation.front()" in t, "R3", A.loc(ap, eb[0][2]), "the recorded entry is the front of the queue that was just applied (%s)" % t,
                   "DynamicRFKickMap::apply:recorded:%s" % t)
     # nothing else touches the two containers
@@ -264,7 +280,7 @@ def run(chk, prog):
                     writers.setdefault(fld, set()).add((f["name"], x["callee"].split("::")[-1]))
     chk.check(writers.get("_next_modulation", set()) <= {("apply", "pop"), (dk["name"], "front"), ("apply", "front")}, "R3", site,
               "queue is consumed only by apply()/_calcKick: %s" % sorted(writers.get("_next_modulation", [])), "DynamicRFKickMap:queue-writers:%s" % sorted(writers.get("_next_modulation", [])))
-    chk.check(writers.get("_past_modulation", set()) <= {("apply", "emplace_back"), ("getPastModulation", "clear")}, "R3", site,
+    chk.check(writers.get("_past_modulation", set()) <= {("apply", "emplace_back"), ("apply", "push_back"), ("getPastModulation", "clear")}, "R3", site,
               "past list is written only by apply() and drained only by getPastModulation(): %s" % sorted(writers.get("_past_modulation", [])),
               "DynamicRFKickMap:past-writers:%s" % sorted(writers.get("_past_modulation", [])))
     gp = prog.fn("vfps::DynamicRFKickMap::getPastModulation", nparams=0)
@@ -272,7 +288,7 @@ def run(chk, prog):
     body = gp["body"]["c"]
     mv = [x for x in A.walk(gp["body"]) if x.get("callee") == "std::move" and A.this_field(x["args"][0]) == "_past_modulation"]
     ret = [x for x in A.walk(gp["body"]) if x["k"] == "ReturnStmt"]
-    rv = [d for st in body if st["k"] == "DeclStmt" for d in st["decls"]]
+    rv = [d for st in body if st["k"] == "DeclStmt" for d in st["decls"] if d.get("k") == "VarDecl"]
     ok = len(mv) == 1 and len(ret) == 1 and len(rv) == 1 and (A.declref(ret[0]["c"][0]) or {}).get("decl") == rv[0]["decl"] and \
         any(y is mv[0] or y["id"] == mv[0]["id"] for y in A.walk(rv[0]["init"]))
     chk.check(ok, "R3", gp.where, "getPastModulation returns the whole past list (moved out)", "getPastModulation:move")
@@ -299,8 +315,12 @@ def run(chk, prog):
     ar = prog.fn("vfps::HDF5File::appendRFKicks")
     chk.used(ar)
     calls = [x for x in A.walk(ar["body"]) if (x.get("callee") or "").startswith("vfps::HDF5File::_appendData")]
-    ok = len(calls) == 1 and len(calls[0]["args"]) == 3 and A.show(calls[0]["args"][1]).replace(" ", "") == "kicks.data()" and \
-        A.show(calls[0]["args"][2]).replace(" ", "") == "kicks.size()" and A.this_field(calls[0]["args"][0]) == "_dynamicRFKick"
+    from .common import append_data_args
+    ok = len(calls) == 1
+    if ok:
+        ds_, data_, n_ = append_data_args(calls[0])
+        ok = ds_ is not None and data_ is not None and n_ is not None and A.show(data_).replace(" ", "") == "kicks.data()" and \
+            A.show(n_).replace(" ", "") == "kicks.size()" and A.this_field(ds_) == "_dynamicRFKick"
     chk.check(ok, "R3", ar.where, "appendRFKicks appends all kicks.size() entries to the RF-kick dataset", "appendRFKicks:all")
 
     # ---- R4 ----------------------------------------------------------------------------------
